@@ -110,6 +110,7 @@ func main() {
 	repo := flag.String("repo", "/repo", "repository root (testdata corpus)")
 	flag.Parse()
 
+	kernel.TraceOn = os.Getenv("VERIF_TRACE") != ""
 	if !kernel.RaceBuild {
 		fmt.Fprintln(os.Stderr, "worker must be built with -race")
 		os.Exit(2)
@@ -205,6 +206,9 @@ func main() {
 		t := kernel.NewTape(rs)
 		t0 := time.Now()
 		r := runOne(*prop, t, oo)
+		if td := os.Getenv("VERIF_TRACE"); td != "" {
+			os.WriteFile(filepath.Join(td, fmt.Sprintf("trace-%d-%d.txt", i, os.Getpid())), []byte(strings.Join(kernel.TraceLines(), "\n")+"\n"), 0o644)
+		}
 		r.Index, r.Seed = i, rs
 		r.TapeLen = t.Len()
 		if len(r.Violations) > 0 || len(r.RaceSteps) > 0 || oo.WantDetail {
